@@ -42,8 +42,8 @@ JOBS += [
 ]
 JOBS += [
   Job("c02.wsapi_take.victim%d" % v, "c02_wsapi.c", "h_wsapi_take", defines=["-DQMAX=64", "-DVICTIM=%d" % v],
-      replace=["myth_wsqueue_lock_trylock/trylock_contract", "myth_wsqueue_lock_unlock/unlock_contract"],
-      restrict_fp=["myth_wsapi_runqueue_take.function_pointer_call.1/verif_decide"],
+      replace=["myth_wsqueue_lock_trylock/trylock_contract", "myth_wsqueue_lock_unlock/unlock_contract", "myth_wsqueue_lock_lock/relock_contract"],
+      restrict_fp=["myth_wsapi_runqueue_take.function_pointer_call.1/verif_decide"], cbmc=["--unwind", "5"],
       fuc=["myth_wsapi_runqueue_take"], timeout=300, note="victim worker %d of 2" % v) for v in (0, 1)
 ]
 THS = ["myth_wsqueue_rwbarrier/ofence_contract", "myth_wsqueue_lock_lock/tlock_contract", "myth_wsqueue_lock_unlock/tunlock_contract", "env_owner/env_owner"]
